@@ -210,7 +210,7 @@ var tests = []test{
 
 func main() {
 	drv.Main(drv.Property{
-		ID: "C17", Level: "exploration", PanicIsViolation: true,
+		ID: "C17", Level: "exploration", PanicIsViolation: true, MemLimitGB: 4,
 		Rule:        "exhaustive over fixed alphabets: 9 boundary ints (MinInt..MaxInt) and 13 strings (empty, prefixes, case, non-ASCII, NUL, 0xff) - all pairs and all triples for eq.Int/ord.Int/eq.String/ord.String against ==, <, >; From wrappers with deliberately asymmetric functions; ContraMap over 24 records with 4 projections and asymmetric base instances; monoid.From/FromOp/semigroup.From with subtraction and separator-concatenation; one case per instance family, every case non-trivial (each contains argument pairs on which a swapped or dropped argument changes the answer)",
 		Assumptions: []string{"values outside the alphabets are not covered (the instances are the Go operators on comparable/ordered types; the alphabets contain every boundary)"},
 		Cases: func(string) (int, func(int) string) {
